@@ -4,6 +4,7 @@ import (
 	"fmt"
 	"go/token"
 	"go/types"
+	"os"
 	"sort"
 	"strings"
 
@@ -66,6 +67,23 @@ func (c *Ctx) registrations() []registration {
 					r.typ = n
 				}
 				if r.syntax == "" || r.ctor == nil {
+					// a shared helper (func register(c *Codec) { registry.RegisterCodec(c.transferSyntax, c) }):
+					// each call of the helper is one registration
+					if rs := c.registrationsThroughHelper(call, fn, r); len(rs) > 0 {
+						out = append(out, rs...)
+						continue
+					}
+				}
+				if r.syntax == "" || r.ctor == nil {
+					// a local table of constructor calls walked by a loop
+					// (for _, c := range [...]*Codec{NewA(), NewB()} { registry.RegisterCodec(c.transferSyntax, c) }):
+					// one registration per constructor call that can reach the argument
+					if rs := c.registrationsFromLocalCtors(call, fn); len(rs) > 0 {
+						out = append(out, rs...)
+						continue
+					}
+				}
+				if r.syntax == "" || r.ctor == nil {
 					// not the direct form RegisterCodec(transfer.X, NewY()): a registration table, a
 					// loop, a syntax taken from the codec's own field — resolve through points-to
 					if rs := c.registrationsByPointsTo(call, fn); len(rs) > 0 {
@@ -78,7 +96,254 @@ func (c *Ctx) registrations() []registration {
 		}
 	}
 	sort.Slice(out, func(i, j int) bool { return out[i].syntax < out[j].syntax })
+	if c.Dump == "registrations" {
+		for _, r := range out {
+			fmt.Fprintf(os.Stderr, "registration syntax=%q ctor=%v typ=%v in %s\n", r.syntax, r.ctor, r.typ, load.FuncName(r.fn))
+		}
+	}
 	return out
+}
+
+// localCtorCalls: the static calls in fn whose result can be the value v, following phis,
+// conversions and loads of local arrays / slices / cells back to the stores that fill them.
+// complete=false when some source is anything else (a parameter, a global, a field of another object).
+func localCtorCalls(fn *ssa.Function, v ssa.Value) (calls []*ssa.Call, complete bool) {
+	complete = true
+	seen := map[ssa.Value]bool{}
+	rootOf := func(a ssa.Value) (*ssa.Alloc, string) {
+		shape := ""
+		for i := 0; i < 6; i++ {
+			switch x := a.(type) {
+			case *ssa.IndexAddr:
+				shape += "[]"
+				a = x.X
+			case *ssa.Slice:
+				a = x.X
+			case *ssa.Alloc:
+				return x, shape
+			default:
+				return nil, ""
+			}
+		}
+		return nil, ""
+	}
+	var walk func(x ssa.Value, depth int)
+	walk = func(x ssa.Value, depth int) {
+		if seen[x] || depth > 10 {
+			return
+		}
+		seen[x] = true
+		switch y := x.(type) {
+		case *ssa.Call:
+			if y.Call.StaticCallee() == nil {
+				complete = false
+				return
+			}
+			calls = append(calls, y)
+		case *ssa.Phi:
+			for _, e := range y.Edges {
+				walk(e, depth+1)
+			}
+		case *ssa.MakeInterface:
+			walk(y.X, depth+1)
+		case *ssa.ChangeType:
+			walk(y.X, depth+1)
+		case *ssa.Index:
+			// element of an array value copied out of a local literal (t = *arr; t[i])
+			if ld, ok := y.X.(*ssa.UnOp); ok && ld.Op == token.MUL {
+				if al, ok := ld.X.(*ssa.Alloc); ok {
+					found := false
+					for _, b := range fn.Blocks {
+						for _, ins := range b.Instrs {
+							if st, ok := ins.(*ssa.Store); ok {
+								if al2, shape2 := rootOf(st.Addr); al2 == al && shape2 == "[]" {
+									found = true
+									walk(st.Val, depth+1)
+								}
+							}
+						}
+					}
+					if found {
+						return
+					}
+				}
+			}
+			complete = false
+		case *ssa.UnOp:
+			if y.Op != token.MUL {
+				complete = false
+				return
+			}
+			al, shape := rootOf(y.X)
+			if al == nil {
+				complete = false
+				return
+			}
+			found := false
+			for _, b := range fn.Blocks {
+				for _, ins := range b.Instrs {
+					st, ok := ins.(*ssa.Store)
+					if !ok {
+						continue
+					}
+					if al2, shape2 := rootOf(st.Addr); al2 == al && shape2 == shape {
+						found = true
+						walk(st.Val, depth+1)
+					}
+				}
+			}
+			if !found {
+				complete = false
+			}
+		default:
+			complete = false
+		}
+	}
+	walk(v, 0)
+	return calls, complete
+}
+
+// registrationsFromLocalCtors: the codec passed to RegisterCodec is one of several constructor calls
+// made in the same function (a table walked by a loop) and the syntax is the codec's own field.
+func (c *Ctx) registrationsFromLocalCtors(call ssa.CallInstruction, fn *ssa.Function) []registration {
+	codecVal := unwrapIface(call.Common().Args[2])
+	root, f, ok := fieldLoad(call.Common().Args[1])
+	if !ok || !sameBase(root, codecVal) {
+		return nil
+	}
+	field := fieldNameOf(root.Type(), f)
+	calls, complete := localCtorCalls(fn, codecVal)
+	if !complete || len(calls) < 2 {
+		return nil
+	}
+	var out []registration
+	for _, cc := range calls {
+		r := registration{ctor: cc.Call.StaticCallee(), typ: load.NamedOf(codecVal.Type()), site: call, fn: fn}
+		r.syntax = ctorSyntaxName(r.ctor, field, 0)
+		if r.syntax == "" {
+			return nil
+		}
+		out = append(out, r)
+	}
+	return out
+}
+
+// registrationsThroughHelper: the RegisterCodec call sits in a helper that registers the codec it
+// is given (and takes the syntax from a parameter, from the codec's own field, or names it itself).
+// Every static call of the helper that passes a constructor call is one registration; nil unless all
+// call sites resolve.
+func (c *Ctx) registrationsThroughHelper(call ssa.CallInstruction, fn *ssa.Function, direct registration) []registration {
+	codecVal := unwrapIface(call.Common().Args[2])
+	ck := paramIndex(fn, codecVal)
+	if ck < 0 {
+		return nil
+	}
+	synArg := call.Common().Args[1]
+	sk := paramIndex(fn, synArg)
+	field := ""
+	if root, f, ok := fieldLoad(synArg); ok && sameBase(root, codecVal) {
+		field = fieldNameOf(root.Type(), f)
+	}
+	if direct.syntax == "" && sk < 0 && field == "" {
+		return nil
+	}
+	var out []registration
+	for _, g := range c.scopeFuncs() {
+		for _, b := range g.Blocks {
+			for _, ins := range b.Instrs {
+				cs, ok := ins.(*ssa.Call)
+				if !ok || cs.Call.StaticCallee() != fn || ck >= len(cs.Call.Args) {
+					continue
+				}
+				cc, ok := unwrapIface(cs.Call.Args[ck]).(*ssa.Call)
+				if !ok || cc.Call.StaticCallee() == nil {
+					return nil
+				}
+				r := registration{syntax: direct.syntax, ctor: cc.Call.StaticCallee(), typ: load.NamedOf(codecVal.Type()), site: cs, fn: g}
+				switch {
+				case sk >= 0 && sk < len(cs.Call.Args):
+					if u, ok := cs.Call.Args[sk].(*ssa.UnOp); ok {
+						if gl, ok := u.X.(*ssa.Global); ok {
+							r.syntax = gl.Name()
+						}
+					}
+				case field != "":
+					r.syntax = ctorSyntaxName(r.ctor, field, 0)
+				}
+				if r.syntax == "" {
+					return nil
+				}
+				out = append(out, r)
+			}
+		}
+	}
+	return out
+}
+
+// ctorSyntaxName: the package-level variable whose value ends up in the named field of the object
+// ctor returns: stored there by ctor itself, or by an inner constructor that ctor returns the result
+// of and that stores the parameter ctor fills with that variable.
+func ctorSyntaxName(ctor *ssa.Function, field string, depth int) string {
+	if ctor == nil || ctor.Blocks == nil || depth > 2 {
+		return ""
+	}
+	if name := globalStoredIntoField(ctor, field); name != "" {
+		return name
+	}
+	name := ""
+	for _, b := range ctor.Blocks {
+		if len(b.Instrs) == 0 {
+			continue
+		}
+		ret, ok := b.Instrs[len(b.Instrs)-1].(*ssa.Return)
+		if !ok || len(ret.Results) == 0 {
+			continue
+		}
+		inner, ok := ret.Results[0].(*ssa.Call)
+		if !ok || inner.Call.StaticCallee() == nil || inner.Call.StaticCallee().Blocks == nil {
+			return ""
+		}
+		ic := inner.Call.StaticCallee()
+		got := ctorSyntaxName(ic, field, depth+1)
+		if got == "" {
+			// the inner constructor stores one of its parameters into the field
+			k := -1
+			for _, ib := range ic.Blocks {
+				for _, ins := range ib.Instrs {
+					st, ok := ins.(*ssa.Store)
+					if !ok {
+						continue
+					}
+					fa, ok := st.Addr.(*ssa.FieldAddr)
+					if !ok || fieldNameOf(fa.X.Type(), fa.Field) != field {
+						continue
+					}
+					pk := paramIndex(ic, st.Val)
+					if pk < 0 || (k >= 0 && k != pk) {
+						return ""
+					}
+					k = pk
+				}
+			}
+			if k < 0 || k >= len(inner.Call.Args) {
+				return ""
+			}
+			u, ok := inner.Call.Args[k].(*ssa.UnOp)
+			if !ok || u.Op != token.MUL {
+				return ""
+			}
+			g, ok := u.X.(*ssa.Global)
+			if !ok {
+				return ""
+			}
+			got = g.Name()
+		}
+		if name != "" && name != got {
+			return ""
+		}
+		name = got
+	}
+	return name
 }
 
 // registrationsByPointsTo resolves one RegisterCodec call with engine E1: every codec object that
@@ -181,10 +446,44 @@ func globalStoredIntoField(ctor *ssa.Function, field string) string {
 }
 
 // ctorFieldConsts: constant values the constructor stores into the fields of the codec it builds.
-func ctorFieldConsts(ctor *ssa.Function) map[string]string {
+func ctorFieldConsts(ctor *ssa.Function) map[string]string { return ctorFieldConstsRec(ctor, 0) }
+
+func ctorFieldConstsRec(ctor *ssa.Function, depth int) map[string]string {
 	out := map[string]string{}
 	if ctor == nil {
 		return out
+	}
+	// a constructor that hands back what an inner constructor built (NewLosslessCodec() →
+	// newLosslessCodecFor(syntax)) inherits the constants every such inner constructor stores
+	if depth < 2 {
+		var inherited map[string]string
+		for _, b := range ctor.Blocks {
+			if len(b.Instrs) == 0 {
+				continue
+			}
+			ret, ok := b.Instrs[len(b.Instrs)-1].(*ssa.Return)
+			if !ok || len(ret.Results) == 0 {
+				continue
+			}
+			inner, ok := ret.Results[0].(*ssa.Call)
+			if !ok || inner.Call.StaticCallee() == nil || inner.Call.StaticCallee().Blocks == nil {
+				inherited = map[string]string{}
+				continue
+			}
+			ic := ctorFieldConstsRec(inner.Call.StaticCallee(), depth+1)
+			if inherited == nil {
+				inherited = ic
+				continue
+			}
+			for k, v := range inherited {
+				if ic[k] != v {
+					delete(inherited, k)
+				}
+			}
+		}
+		for k, v := range inherited {
+			out[k] = v
+		}
 	}
 	for _, b := range ctor.Blocks {
 		for _, ins := range b.Instrs {
